@@ -127,6 +127,50 @@ NEEDS = {
                   'accepted set_mtu whose rounded size equals the current one while mtu or align differ'),
     'C20-r2-m2': ('upipe_agg_control(): partial aggregate output whenever the output-size helper handled the command (getter included)',
                   'get_output_size called while a partial aggregate is held'),
+    'C02-r2-m1': ('ubuf_block_truncate(ubuf, 0): cached_ubuf / cached_offset not reset',
+                  'segmented block whose last lookup ended in a later segment, truncate to 0 (segment structure recycled as another live handle, pool depth >= 1), refill by append, first access beyond the old cached offset'),
+    'C02-r2-m2': ('ubuf_block_delete(): in-place compaction guarded by a single-owner test made on the head segment',
+                  'segmented block, head segment sole owner of its area, later segment shared with another handle, delete strictly inside that segment with tail <= hole'),
+    'C03-r2-m1': ('ubuf_block_common_splice(): last duplicated segment not clipped',
+                  'splice of a segmented block whose range ends strictly inside a segment that is not the first, then append / read at offset == size'),
+    'C03-r2-m2': ('ubuf_block_match(): mask restarts at mask[0] after a segment boundary',
+                  'matched window straddling a segment boundary with a mask that is not one repeated octet'),
+    'C07-r2-m1': ('uring_fifo_push(): "FIFO was empty" computed once and reused on CAS retries',
+                  'push whose first CAS fails while the emptiness of the FIFO changed (concurrent pop of the only element, or two pushers on an empty FIFO)'),
+    'C07-r2-m2': ('uring_lifo_push(): elem->next rewritten only if the top differs from a cached index that is never refreshed',
+                  'one push failing its CAS twice with the top going A -> B -> A'),
+    'C09-r2-m1': ('urefcount_use(): load + single compare-exchange whose failure is ignored',
+                  'another thread modifies the same counter between the load and the compare-exchange'),
+    'C09-r2-m2': ('ubuf_block_mem_free(): "sole owner" fast path, otherwise release whose result is ignored',
+                  'the last two holders of a shared area freed concurrently from two threads'),
+    'C10-r2-m1': ('udict_set_rational(): denominator written with udict_set_int64()',
+                  'rational attribute with denominator 0 or > INT64_MAX'),
+    'C10-r2-m2': ('udict_import(): zero-length attributes skipped',
+                  'source dictionary holding a void attribute or an empty opaque, import / copy'),
+    'C11-r2-m1': ('UREF_CLOCK_SET_RAP: signed test of cr - rap',
+                  'cr and rap at least 2^63 apart (rap after cr accepted, legal rap refused)'),
+    'C11-r2-m2': ('uref_dup_inner(): rap_cr_delay copied from cr_dts_delay',
+                  'dup / fork of a uref whose rap_cr_delay differs from its cr_dts_delay, rap read on the copy'),
+    'C15-r2-m1': ('upipe_ts_encaps_build_ts(): adaptation_field_control set only when header_size >= TS_HEADER_SIZE_AF',
+                  'exactly one octet of stuffing needed (183 octets left, no PCR / random access / discontinuity)'),
+    'C15-r2-m2': ('upipe_ts_pesd_flush(): drop set only when sync is lost',
+                  'padding_stream PES (0xBE) longer than one TS payload after a decoded PES: its continuation packets come out as elementary stream'),
+    'C16-r2-m1': ('upipe_ts_psim_input(): flush on discontinuity only on payloads with unit start',
+                  'section spanning >= 3 payloads loses a middle packet: discontinuity on a continuation payload'),
+    'C16-r2-m2': ('upipe_ts_psi_split_input(): table_id fast path treats mask[0] as a boolean',
+                  'output with a partial mask on the first octet (0x50/0xf0), section whose table_id matches under the mask but differs from the filter'),
+    'C17-r2-m1': ('upipe_h264f_handle_pps(): PPS no longer invalidated when no SPS is active',
+                  'SPS re-sent with the same id and other content, PPS re-sent unchanged, no buffering-period SEI'),
+    'C17-r2-m2': ('upipe_h26xf_encaps_nal() LENGTH2: nal_size >= UINT16_MAX refused',
+                  '2-octet length prefixes and a NAL unit of exactly 65535 octets'),
+    'C18-r2-m1': ('ubits_put(): room test sized on the field instead of the 4-octet flush',
+                  'buffer too small with 1..3 octets left at a flush and at least ceil(nb/8) of them'),
+    'C18-r2-m2': ('ubuf_block_stream_init_from_opaque(): overflow not reset',
+                  'stream structure reused through the opaque init after a stream that ran out of data'),
+    'C19-r2-m1': ('ubuf_pic_common_plane_map(): range checks dropped',
+                  'plane read / write with a negative offset and an explicit size larger than what is left'),
+    'C19-r2-m2': ('ubuf_pic_common_dup(): vappend initialised from vprepend',
+                  'original with more lines above the window than below (manager margins 4/0, or cropped at the top) at dup time, duplicate extended downwards'),
 }
 
 
